@@ -180,3 +180,41 @@ pub fn two_lexers(case: &Value) -> Value {
     json!({"syntax_kinds": syntax_kinds, "syntax_lexemes": syntax_lexemes, "syntax_err": syntax_err,
            "lang_kinds": lang_kinds, "lang_lexemes": lang_lexemes, "lang_err": !diagnostics.is_empty(), "directive": directive})
 }
+
+/// {"text": [...]} -> parse, format, parse again; compare tokens (kind, value) and comments (up to trailing blanks) per unit
+pub fn format(case: &Value) -> Value {
+    use vhdl_lang::{Source, VHDLFormatter, VHDLParser, VHDLStandard};
+    let text = cps_to_string(&case["text"]);
+    let parser = VHDLParser::new(VHDLStandard::default());
+    let source = Source::inline(std::path::Path::new("verif_native_a.vhd"), &text);
+    let mut d1 = Vec::new();
+    let file = parser.parse_design_source(&source, &mut d1);
+    if !d1.is_empty() {
+        return json!({"ndiag": d1.len()});
+    }
+    let out = VHDLFormatter::format_design_file(&file);
+    let source2 = Source::inline(std::path::Path::new("verif_native_b.vhd"), &out);
+    let mut d2 = Vec::new();
+    let file2 = parser.parse_design_source(&source2, &mut d2);
+    let mut same_tokens = file.design_units.len() == file2.design_units.len();
+    let mut same_comments = true;
+    let cm = |c: &vh::Comment| (c.value.trim_end().to_string(), c.multi_line);
+    for ((t1, _), (t2, _)) in file.design_units.iter().zip(file2.design_units.iter()) {
+        if t1.len() != t2.len() {
+            same_tokens = false;
+            continue;
+        }
+        for (a, b) in t1.iter().zip(t2.iter()) {
+            if !a.equal_format(b) {
+                same_tokens = false;
+            }
+            let ca = a.comments.as_ref().map(|c| (c.leading.iter().map(cm).collect::<Vec<_>>(), c.trailing.as_ref().map(cm)));
+            let cb = b.comments.as_ref().map(|c| (c.leading.iter().map(cm).collect::<Vec<_>>(), c.trailing.as_ref().map(cm)));
+            let empty = (Vec::new(), None);
+            if ca.unwrap_or(empty.clone()) != cb.unwrap_or(empty) {
+                same_comments = false;
+            }
+        }
+    }
+    json!({"ndiag": 0, "formatted": crate::string_to_cps(&out), "ndiag2": d2.len(), "same_tokens": same_tokens, "same_comments": same_comments})
+}
